@@ -384,7 +384,33 @@ func (ec *evalCtx) applyContract(c *Contract, fn *types.Func, call *ast.CallExpr
 		t := sc.evalBool(r.Expr)
 		fc.obligeNamed(ec.st, fmt.Sprintf("%s#call.%s.requires.%d", fc.name, tag, k+1), "requires", t, call.Pos(), r.Text)
 	}
+	// call-site clauses: read in the caller's scope (its locals and receiver) with the formals bound to the arguments
+	for k, r := range c.CallSite {
+		if !e.applies(r) {
+			continue
+		}
+		cs := &evalCtx{fc: fc, st: ec.st, spec: true, scope: copyScope(scope), pkg: fc.pkg, pol: 1}
+		var t *Term
+		func() {
+			defer func() {
+				if p := recover(); p != nil {
+					if u, ok := p.(unsupportedErr); ok {
+						// the caller does not have what the clause talks about: the obligation cannot be met here
+						t = False
+						r = &Clause{Text: r.Text + " (not expressible at this call site: " + u.Error() + ")", Props: r.Props}
+						return
+					}
+					panic(p)
+				}
+			}()
+			t = cs.evalBool(r.Expr)
+		}()
+		fc.obligeNamed(ec.st, fmt.Sprintf("%s#call.%s.callsite.%d", fc.name, tag, k+1), "callsite", t, call.Pos(), r.Text)
+	}
 	e.usedContracts[c.Key()] = true
+	if c.ModAll {
+		ec.havocReachable(recv, args)
+	}
 	// havoc modifies
 	osig := fn.Origin().Type().(*types.Signature)
 	for mi, m := range c.Modifies {
@@ -435,6 +461,10 @@ func (ec *evalCtx) applyContract(c *Contract, fn *types.Func, call *ast.CallExpr
 	}
 	if len(results) == 1 {
 		scope["result"] = results[0]
+	}
+	scope["lasterr"] = Int(0)
+	if n := res.Len(); n > 0 && isErrorType(res.At(n-1).Type()) {
+		scope["lasterr"] = results[n-1]
 	}
 	post := &evalCtx{fc: fc, st: ec.st, spec: true, scope: scope, pkg: calleePkg, noLocals: true, old: pre, pol: -1}
 	post.oldScope = preScope
@@ -956,4 +986,71 @@ func (ec *evalCtx) callCandidates(fv *FuncV, call *ast.CallExpr, args []Value, s
 	}
 	ec.st.Assume(Or(ids...))
 	return result
+}
+
+// havocReachable: the effect of a callee with "modifies *". Every object reachable from the receiver and the
+// arguments keeps its identity and its pointer structure, all its scalar, string, map and slice contents become
+// unknown; all ghost state (writer outputs, traces, failure flag) becomes unknown as well.
+func (ec *evalCtx) havocReachable(recv Value, args []Value) {
+	e := ec.e()
+	seen := map[int]bool{}
+	var inPlace func(v Value, hint string) Value
+	var visit func(v Value, hint string)
+	inPlace = func(v Value, hint string) Value {
+		switch x := v.(type) {
+		case *Term:
+			return Var(e.fresher.name(hint), x.Sort)
+		case *StructV:
+			n := &StructV{Names: x.Names, F: map[string]Value{}}
+			for _, f := range x.Names {
+				n.F[f] = inPlace(x.F[f], hint+"."+f)
+			}
+			return n
+		case *PtrV:
+			visit(x, hint)
+			return x
+		case *MapV, *SliceV:
+			return e.freshLike(ec.st, x, hint)
+		}
+		return v // interfaces and function values are immutable; what they refer to is reached through ghost state
+	}
+	visit = func(v Value, hint string) {
+		switch x := v.(type) {
+		case *PtrV:
+			if x.Alt != nil {
+				visit(x.Alt.a, hint)
+				visit(x.Alt.b, hint)
+				return
+			}
+			if x.Obj < 0 || seen[x.Obj] {
+				return
+			}
+			seen[x.Obj] = true
+			if obj, ok := ec.st.heap[x.Obj]; ok && obj != nil {
+				ec.st.heap[x.Obj] = inPlace(obj, hint+".deref")
+			}
+		case *StructV:
+			for _, f := range x.Names {
+				visit(x.F[f], hint+"."+f)
+			}
+		case *IfaceV:
+			for _, p := range x.Payloads {
+				visit(p, hint)
+			}
+		}
+	}
+	if recv != nil {
+		visit(recv, "havoc.recv")
+	}
+	for i, a := range args {
+		visit(a, fmt.Sprintf("havoc.arg%d", i))
+	}
+	ec.st.ghost[failedKey] = Or(scalar(ec.failedLval().get()), Var(e.fresher.name("havoc.failed"), SBool))
+	e.fresher.n++
+	ec.st.ghost["$epoch"] = Int(int64(e.fresher.n))
+	for k := range ec.st.ghost {
+		if strings.HasPrefix(k, "out:") || strings.HasPrefix(k, "in:") || strings.HasPrefix(k, "tr:") || strings.HasPrefix(k, "refused:") {
+			delete(ec.st.ghost, k)
+		}
+	}
 }
